@@ -39,6 +39,10 @@ type ctlState struct {
 	dstNacks, dlqRejects, procErrors, stuckCalls int
 	restartInProgress                            bool // an automatic restart has begun and the pipeline is not yet reported running again
 	forceStopIssued                              bool // a force stop request has been issued at some time in this run
+	// the start in progress (a Start call or an automatic restart) and what its run has done so far
+	startActive       bool
+	openedSinceStart  int
+	terminalAfterOpen bool
 }
 
 func newCtlState() *ctlState {
@@ -67,6 +71,7 @@ func (o *Oracles) onPark(w *World, kind string) {
 	d := now - c.recoveringAt
 	c.recoveringAt = -1
 	c.restartInProgress = true
+	c.startActive, c.openedSinceStart, c.terminalAfterOpen = true, 0, false
 	if c.userStartSinceRecovering {
 		// a user Start overlapped this recovery episode: whose start this is cannot be told
 		// from the outside (and the user's run inherits the retry counters); count it, check nothing
@@ -104,6 +109,10 @@ func (o *Oracles) onControlEvent(w *World, e *Event) {
 		c.recoveringAt = -1
 		c.restartTimes = nil
 		c.restartInProgress = false
+	case "SRC_OPEN", "DST_OPEN":
+		if c.startActive && e.Err == "" {
+			c.openedSinceStart++
+		}
 	case "STATUS":
 		o.ap.statusEvents++
 		c.restartInProgress = false
@@ -153,6 +162,7 @@ func (o *Oracles) onControlEvent(w *World, e *Event) {
 			c.forceStopIssued = true
 		}
 		if op == "start" {
+			c.startActive, c.openedSinceStart, c.terminalAfterOpen = true, 0, false
 			if c.recoveringAt >= 0 {
 				c.userStartSinceRecovering = true
 				c.everUserStartDuringRecovery = true
